@@ -259,7 +259,9 @@ static Outcome runCase(const KV& c)
             }
         }
         if (fileMode == 1) {
-            const double tol = 0.5000001 * std::pow(10.0, -precision) + 4 * EPS * 2 * M_PI;
+            // fixed notation with `precision` decimals: half a unit of the last written decimal, plus the rounding of the
+            // value read back (relative to the size of the value: radii may be large)
+            const double tol0 = 0.5000001 * std::pow(10.0, -precision);
             if (threw) {
                 // the written precision may legitimately destroy the grid (R0 rounds to 0, partners drift apart);
                 // at the precision setup() itself uses (18) the round trip must work unless R0 < 1e-18
@@ -274,12 +276,12 @@ static Outcome runCase(const KV& c)
                     return o;
                 }
                 for (int i = 0; i < g->nr(); i++)
-                    if (std::fabs(lg->radius(i) - g->radius(i)) > tol) {
+                    if (std::fabs(lg->radius(i) - g->radius(i)) > tol0 + 2 * EPS * std::fabs(g->radius(i))) {
                         o.fail("roundtrip", "radius differs by more than the written precision");
                         return o;
                     }
                 for (int j = 0; j <= g->ntheta(); j++)
-                    if (std::fabs(lg->theta(j) - g->theta(j)) > tol) {
+                    if (std::fabs(lg->theta(j) - g->theta(j)) > tol0 + 4 * EPS * 2 * M_PI) {
                         o.fail("roundtrip", "angle differs by more than the written precision");
                         return o;
                     }
@@ -292,7 +294,8 @@ static Outcome runCase(const KV& c)
 static KV genCase()
 {
     KV c;
-    const double Rmax = rpick({1.0, 1.3, 0.7, 2.0});
+    // outer radius: the shipped values, or any scale (the code imposes none): 10^U[-2,4] with a non-round mantissa
+    const double Rmax = rint(0, 3) != 0 ? rpick({1.0, 1.3, 0.7, 2.0}) : std::pow(10.0, rint(-2, 3)) * runi(1.0, 10.0);
     const double R0   = Rmax * genR0overRmax();
     int nr_exp        = rweighted({1, 3, 8, 8, 6, 4, 2, 1}); // 0..7
     int div           = rweighted({5, 3, 2, 1});
@@ -337,7 +340,7 @@ static KV genCase()
     c.putD("refinement", refinement);
     c.putI("max_levels", rpick({-1, -1, 0, 1, 2, 3, 4, 6}));
     c.putI("file_mode", rweighted({4, 3, 1, 1, 3}));
-    c.putI("precision", rpick({12, 15, 18, 18}));
+    c.putI("precision", rpick({12, 13, 14, 15, 16, 18, 18}));
     c.putU("mut_seed", rseed());
     return c;
 }
